@@ -31,6 +31,10 @@ def initialised(prog, f, rec, _depth=0):
             lv = strip_lv(e['x'])
             if lv.get('k') == 'mem' and lv.get('f'):
                 done.add(lv['f'])
+        if e.get('k') == 'call' and e.get('op') == '=' and e.get('obj') is not None:
+            lv = strip_lv(e['obj'])
+            if lv.get('k') == 'mem' and lv.get('f'):
+                done.add(lv['f'])
     return done
 
 
